@@ -225,8 +225,11 @@ CHECKS['C01'] = dict(
          'another stream; a section queues at most one payload frame, carrying exactly the payload handed over in it; nothing is lost at '
          'dispatch while the local party is still listening. Network.v is tied to the code by two RECORDED real endpoints with the '
          'harness playing the link, the recorded history replayed through net_run inside Coq (effects of every event, every delivered '
-         'frame, final link contents). Partial: "exactly once" for a stream that ends normally is proved per dispatch step plus the '
-         'oracle, not as one theorem over whole histories.',
+         'frame, final link contents). C01_network_exactly_once closes the loop over whole histories: if a side was listening on a '
+         'stream throughout (every request found its id free, every element or response found its subscriber or awaitable still '
+         'expecting one) and nothing of the stream is still under way, the payloads with content it was given are EXACTLY those the '
+         'peer queued on that stream, in order. Not covered by a theorem: an empty payload is no element on the wire (the code sets NEXT '
+         'only when there is content), so empty elements are outside the exactly-once statement.',
     design_ref='DESIGN.md section 6, C01',
     technique='Coq proof (end-to-end pipeline theorem composed from the codec, fragmenter, send-queue, parser and cache theorems; application-to-application theorems over a two-endpoint network model) + in-Coq correspondence with two real endpoints over a simulated link and with two recorded real endpoints linked by the harness')
 
